@@ -131,7 +131,9 @@ func writeRowsOneByOne(w *parquet.GenericWriter[JRow], rows []JRow) {
 
 var c17Containers = []string{"GenericWriter", "GenericBuffer->WriteRowGroup", "SortingWriter", "Writer(any)",
 	// one writer copying the row groups of ONE open source file again and again
-	"GenericWriter.WriteRowGroup(shared file)"}
+	"GenericWriter.WriteRowGroup(shared file)",
+	// one writer (without sorting configuration) receiving sorted buffers as row groups
+	"GenericWriter.WriteRowGroup(sorted buffer)"}
 
 func c17Run(x *engine.X) {
 	root := x.Choose(len(c17Jobs)*len(c17Containers), "job*container")
@@ -330,6 +332,58 @@ func c17Run(x *engine.X) {
 			w.Reset(&sink)
 		}
 		if err := copyAll(w, shared); err != nil {
+			x.Failf("close-error", shape, "after %v: WriteRowGroup of the final job failed: %v", hist, err)
+			return
+		}
+		if err := w.Close(); err != nil {
+			x.Failf("close-error", shape, "after %v: Close of the final job failed: %v", hist, err)
+			return
+		}
+		got = sink.Bytes()
+	case "GenericWriter.WriteRowGroup(sorted buffer)":
+		sorting := parquet.SortingRowGroupConfig(parquet.SortingColumns(parquet.Descending("ID")))
+		sorted := func(rows []JRow) *parquet.GenericBuffer[JRow] {
+			b := parquet.NewGenericBuffer[JRow](sorting)
+			b.Write(rows)
+			sort.Sort(b)
+			return b
+		}
+		var ref bytes.Buffer
+		fw := parquet.NewGenericWriter[JRow](&ref, job.opts()...)
+		if _, err := fw.WriteRowGroup(sorted(J)); err != nil {
+			x.Failf("harness", "reference", "%v", err)
+			return
+		}
+		if err := fw.Close(); err != nil {
+			x.Failf("harness", "reference", "%v", err)
+			return
+		}
+		reference = ref.Bytes()
+		var sink bytes.Buffer
+		w := parquet.NewGenericWriter[JRow](&sink, job.opts()...)
+		for _, h := range hist {
+			switch h {
+			case "complete(small)", "complete(large)", "complete(empty)":
+				w.WriteRowGroup(sorted(priorRows(h)))
+				w.Close()
+			case "aborted-after-write", "aborted-after-small-write":
+				w.WriteRowGroup(sorted(priorRows(h)))
+			case "sink-fails":
+				w.Reset(&failAfter{n: 200})
+				w.WriteRowGroup(sorted(priorRows(h)))
+				w.Close()
+			case "flush-only":
+				w.WriteRowGroup(sorted(priorRows(h)))
+				w.Flush()
+			case "close-twice":
+				w.WriteRowGroup(sorted(priorRows(h)))
+				w.Close()
+				w.Close()
+			}
+			sink.Reset()
+			w.Reset(&sink)
+		}
+		if _, err := w.WriteRowGroup(sorted(J)); err != nil {
 			x.Failf("close-error", shape, "after %v: WriteRowGroup of the final job failed: %v", hist, err)
 			return
 		}
